@@ -114,10 +114,14 @@ def run(ck):
         if isinstance(n, ast.If) and "%s.is_id()" % ep in norm(n.test) and "%s.is_mem()" % ep in norm(n.test):
             ok = any(isinstance(s, ast.Return) and norm(s.value) == full for s in n.body)
     ck.ob("R2", "id-and-mem:full", ok, em.where(fn), "identifiers and memory must get the full range")
-    opb = [n for n in walk_body(fn) if isinstance(n, ast.If) and norm(n.test) == "%s.is_op()" % ep]
-    ok = bool(opb) and isinstance(opb[0].body[-1], ast.Return) and norm(opb[0].body[-1].value) == full
+    from sa.astutil import arm_when, positive_test
+    opb = [n for n in walk_body(fn) if isinstance(n, ast.If) and norm(positive_test(n)) == "%s.is_op()" % ep]
+    # what runs when the node is an operator (the body of the test, or what follows a negated guard), up to its last statement
+    op_region = arm_when(opb[0], True) if opb else []
+    ok = bool(op_region) and isinstance(op_region[-1], ast.Return) and norm(op_region[-1].value) == full
     ck.ob("R2", "unmodelled-operator:full", ok, em.where(fn), "an operator without handler must fall through to the full range")
-    ok = bool(opb) and any(isinstance(n, ast.If) and norm(n.test) == "%s.op in _op_range_handler" % ep for n in walk_local(opb[0]))
+    ok = bool(op_region) and any(isinstance(n, ast.If) and norm(positive_test(n)) == "%s.op in _op_range_handler" % ep
+                                 for n in walk_local(ast.Module(body=op_region, type_ignores=[])))
     ck.ob("R2", "table-guard", ok, em.where(fn), "handlers must be applied only to operators present in the table")
     ok = any(isinstance(n, ast.If) and norm(n.test) == "%s.is_cond()" % ep and any(
         isinstance(s, ast.Return) and norm(s.value) == "expr_range(%s.src1).union(expr_range(%s.src2))" % (ep, ep) for s in n.body) for n in walk_body(fn))
